@@ -1,0 +1,17 @@
+//go:build verif
+
+package ttlv
+
+// Entry points of the element-level codec model used by the mirror lemmas of the gocv verifier
+// (zz_verif_lemmas.go files). They are never executed: the verifier gives them their meaning (an encoder
+// whose writer appends to an abstract tape of elements, a decoder whose reader consumes that tape).
+// Compiled only with -tags verif.
+
+// VerifModelEncoder returns an encoder that writes to a fresh element tape.
+func VerifModelEncoder() Encoder { panic("verification only") }
+
+// VerifModelDecoder returns a decoder positioned at the first element written to e so far.
+func VerifModelDecoder(e *Encoder) Decoder { panic("verification only") }
+
+// VerifTapeEnd reports whether d has consumed every top-level element of its tape.
+func VerifTapeEnd(d *Decoder) bool { panic("verification only") }
